@@ -182,12 +182,17 @@ def infer(inference_state, context, leaf):
     return definitions
 
 
-def filter_follow_imports(names, follow_builtin_imports=False):
+def filter_follow_imports(names, follow_builtin_imports=False, _followed=()):
     for name in names:
         if name.is_import():
+            if name.tree_name is not None and name.tree_name in _followed:
+                # An import cycle (a imports x from b and b imports x from
+                # a). There is nothing to find, don't recurse forever.
+                continue
             new_names = list(filter_follow_imports(
                 name.goto(),
                 follow_builtin_imports=follow_builtin_imports,
+                _followed=_followed + (name.tree_name,),
             ))
             found_builtin = False
             if follow_builtin_imports:
